@@ -51,9 +51,14 @@ CLAIMED = {
                  "radionuclide_branching_ratio[0] / name, and the data base's entry otherwise; the writer (write_interfile_radionuclide_info) emits name, half "
                  "life and branching ratio each under its own key, the reader's key table binds each key to the member of its name, and (lemma, parser "
                  "trusted) a nuclide unknown to the data base survives the round trip; (e) byte order: every inner read of read_data (converting overload, row "
-                 "recursion) and every inner write of write_data_with_fixed_scale_factor uses the byte order the call was given, never an overload's default. Not decided: the read-back accuracy "
-                 "'within half a quantisation step' (needs the IEEE error bound of the float division: solver time-out, argued in DESIGN.md), voxel "
-                 "positions, header key parsing / writing and all other exam information, byte order, truncated files, dynamic/parametric containers."),
+                 "recursion) and every inner write of write_data_with_fixed_scale_factor uses the byte order the call was given, never an overload's default; "
+                 "(f) voxel positions: the reader builds voxel size, index range and origin from the header vectors of the matching axis (x,y,z <- [1],[2],[3]; origin = first pixel "
+                 "offset - voxel size * minimum index, computed once from these operands), the writer emits matrix size, scaling factor and first pixel offset keys [1],[2],[3] from the "
+                 "x,y,z components of dimensions / voxel size / (voxel size * minimum index + origin), each once (statement kernels); (g) number format of the header: over the control "
+                 "skeleton of write_basic_interfile_image_header (all branches, loops under loop contract) every value is inserted into the header stream in a format that can be read back "
+                 "(at least 6 significant digits, not std::fixed, base 10) - stream flags are sticky, so this is a property of the whole function. Not decided: the read-back accuracy "
+                 "'within half a quantisation step' (needs the IEEE error bound of the float division: solver time-out, argued in DESIGN.md), that the position "
+                 "arithmetic round-trips up to rounding (only which operands enter it), header key parsing (KeyParser) and all other exam information, truncated files, dynamic/parametric containers."),
         "note": ("trusted: cbmc 6.11.0 MiniSat with its IEEE-754 float model and its floor() model; std::max_element/min_element deliver the extreme values; "
                  "element type float, scale type float"),
     },
@@ -144,7 +149,8 @@ CLAIMED = {
                  "to the last exactly once and in order to update_estimate (loop contract; early termination nondeterministic). "
                  "(i) randomly_permute_subset_order (real body, three loop contracts, per number of subsets up to 24 quick / 48 and 64 thorough): the random order has index range "
                  "[0,num_subsets), and every subset number occurs in it exactly once, for every value rand() can return (the float index computation is part of the kernel) - the contract "
-                 "the get_subset_num jobs use for the call. "
+                 "the get_subset_num jobs use for the call; get_subset_num regenerates the random order exactly at the first sub-iteration of a full iteration (or when none exists), keeps it otherwise, "
+                 "and returns entry k of it at sub-iteration k of the full iteration; lemma: two different sub-iterations of one full iteration use different subsets, also with randomised order and any start subset. "
                  "(h) the class invariant all of this rests on - 90-degree symmetry only with the 180-degree one and a number of views divisible by 4, "
                  "180-degree symmetry only for an even number of views, TOF data only the z-shift - is established by the constructor "
                  "(two statement kernels + lemma; float conditions nondeterministic). "
